@@ -42,3 +42,21 @@ Theorem C07_clean_record_carries_a_block_of_the_declared_length :
     m_get field_table uni_lower n_content_length (r_fields r) = itoa (Z.of_nat (length (raw_bytes (r_block r)))).
 Proof. intros. eapply clean_record_has_declared_length; eassumption. Qed.
 Print Assumptions C07_clean_record_carries_a_block_of_the_declared_length.
+
+(** the first sentence for the whole parser on plain streams: with the add-missing and repair
+    options off, ANY two policy settings that both return a record without error return the same
+    record - version, type, header fields with their values, block bytes - and leave the same
+    rest of the stream.  Only the findings differ.  (Both agree with the all-ignore run, which
+    cannot be the one that errs because rejection is monotone, C08.) *)
+Require Import Model.Policy Proofs.NormalizeProofs Proofs.MonoPipeProofs Proofs.SameRecordProofs.
+Theorem C07_two_policy_settings_return_the_same_record :
+  forall uni_lower uni_upper time_ok ip_ok uri_ok wid_ok mime_dec H b32 b64 http_req_ok http_resp_ok
+         o pyA psA puA pbA pyB psB puB pbB s r1 g1 s1 r2 g2 s2,
+    o_add_digest o = false -> o_fix_cl o = false -> o_fix_digest o = false -> o_fix_wfblock o = false ->
+    parse_record field_table required_fields uni_lower uni_upper time_ok ip_ok uri_ok wid_ok mime_dec H b32 b64
+                 http_req_ok http_resp_ok (relevel4 o pyA psA puA pbA) s [] = URec r1 None g1 s1 ->
+    parse_record field_table required_fields uni_lower uni_upper time_ok ip_ok uri_ok wid_ok mime_dec H b32 b64
+                 http_req_ok http_resp_ok (relevel4 o pyB psB puB pbB) s [] = URec r2 None g2 s2 ->
+    r1 = r2 /\ s1 = s2.
+Proof. intros. eapply same_record_under_any_two_settings; try eassumption. exact gen_table_ok. Qed.
+Print Assumptions C07_two_policy_settings_return_the_same_record.
